@@ -35,7 +35,7 @@ def run_c08(tier, seed):
     cov, res, scripts, wall = c_gc.check_c08(tier, seed)
     viols = []
     def run_one(s):
-        r = c_gc.gc_compare([s]); return r
+        r = c_gc.gc_compare([s], counters=False); return r
     if res["truth"]:
         k, j, f = res["truth"][0]
         s = scripts[k][: j + 1] if k >= 0 else []
@@ -148,7 +148,7 @@ def make_api_run(pid, with_txn=False, extra=None):
     def run(tier, seed):
         out = c_api.run_api_prop(pid, tier, seed)
         if with_txn:
-            info, viol = c_txn.run(tier, seed)
+            info, viol = c_txn.check(tier, seed)
             out["coverage"]["correspondence_txn"] = info
             if viol: out["violations"].append(viol)
             out["summary"] += f" L-txn scripts={info['scripts']} disagreements={info['disagreements']}"
